@@ -2,6 +2,7 @@
 //! renderers of ENGINE_PROTOCOL.md and the shared `run_query` entry point.
 //! See `harness/ENGINE_NOTES.md` for the public API and the generator's distribution knobs.
 pub mod adapter;
+pub mod batching;
 pub mod common;
 pub mod data_gen;
 pub mod ir_sexp;
